@@ -52,6 +52,10 @@ fn c20_main(tier: Tier) -> i32 {
         let v: serde_json::Value = match std::fs::read_to_string(&p).ok().and_then(|t| serde_json::from_str(&t).ok()) {
             Some(v) => v,
             None => {
+                // a script whose worker hung / died is accounted for by the runner as a violation of that case: no statistics then
+                if rr.viols.iter().any(|(sig, (first, _, _))| *first == idx && (sig == "hang" || sig.starts_with("killed-by-signal") || sig.starts_with("exit-") || sig == "huge-allocation")) || rr.crashes > 0 {
+                    continue;
+                }
                 machinery = Some(format!("no exploration statistics for script {}", idx));
                 continue;
             }
@@ -90,9 +94,34 @@ fn c20_main(tier: Tier) -> i32 {
         b["schedules_showing_it"] = json!(n);
         let path = report::write_replay("C20", tier, sig, b);
         // determinism: the recorded schedule must show the same violation when replayed in a fresh process
-        let reproduced = match std::env::current_exe().ok().and_then(|exe| std::process::Command::new(exe).arg("replay").arg(&path).output().ok()) {
-            Some(o) => String::from_utf8_lossy(&o.stdout).contains(&format!("violation: {}", sig)),
-            None => false,
+        // (with a deadline: replaying a "hang" hangs again)
+        let reproduced = match std::env::current_exe() {
+            Err(_) => false,
+            Ok(exe) => {
+                let out_path = format!("{}.replay-out", path);
+                let spawned = std::fs::File::create(&out_path).ok().and_then(|f| std::process::Command::new(exe).arg("replay").arg(&path).stdin(std::process::Stdio::null()).stdout(f).stderr(std::process::Stdio::null()).spawn().ok());
+                match spawned {
+                    None => false,
+                    Some(mut child) => {
+                        let t0 = std::time::Instant::now();
+                        let mut finished = false;
+                        while t0.elapsed() < std::time::Duration::from_secs(90) {
+                            if let Ok(Some(_)) = child.try_wait() {
+                                finished = true;
+                                break;
+                            }
+                            std::thread::sleep(std::time::Duration::from_millis(50));
+                        }
+                        if !finished {
+                            let _ = child.kill();
+                            let _ = child.wait();
+                        }
+                        let text = std::fs::read_to_string(&out_path).unwrap_or_default();
+                        let _ = std::fs::remove_file(&out_path);
+                        (finished && text.contains(&format!("violation: {}", sig))) || (!finished && sig == "hang")
+                    }
+                }
+            }
         };
         let crash_like = sig.starts_with("killed-by-signal") || sig == "hang" || sig.starts_with("exit-") || sig == "deadlock" || sig.starts_with("panic@");
         viol_json.push(json!({"sig": sig, "replay": path, "schedules": n, "reproduced_on_replay": reproduced}));
